@@ -34,7 +34,7 @@ structure UpdObs where
   deriving Repr
 
 inductive Clause
-  | windowCovers | outsideWindow | insideFormula | noopUpdate
+  | windowCovers | outsideWindow | insideFormula | noopUpdate | tickWindow | tickInside | refsAgree
   deriving Repr, DecidableEq
 
 def Clause.name : Clause → String
@@ -42,6 +42,9 @@ def Clause.name : Clause → String
   | .outsideWindow => "outside_window_is_inside"
   | .insideFormula => "inside_iff_ranges_includes_excludes"
   | .noopUpdate => "update_before_valid_end_changes_nothing"
+  | .tickWindow => "timer_update_window_reaches_from_now_to_a_day_ahead"
+  | .tickInside => "inside_iff_ranges_includes_excludes_after_timer_update"
+  | .refsAgree => "inside_agrees_with_included_and_excluded_periods"
 
 /-- The effective begin of the refreshed region. -/
 def UpdObs.effB (o : UpdObs) : Int :=
@@ -82,6 +85,97 @@ def specUpdate (o : UpdObs) : Option Clause :=
   else match specWindow o with
     | some c => some c
     | none => specQueries o o.queries
+
+/-! ### One run of the 300 s update timer on one period (`UpdateTimerHandler`)
+
+  What the property demands of it: the period keeps answering by the same formula at every
+  instant of its window from the purge cut-off (`now − 1 h`) on — what was stored before keeps
+  counting as own outside the newly refreshed region `[old valid_end, now + 24 h)`, the newly
+  refreshed region follows own/includes/excludes — and the window reaches from (at most) `now`
+  to (at least) `now + 24 h`.  Instants before the cut-off are the purged past: not constrained
+  (and how much of the past is kept is not the property's business: any cut-off ≤ now passes).  The record is the `UpdObs` of the non-clearing update the handler performs
+  (`b` = the old `valid_end`, `e = now + 24 h`, `preSegs` = the segments observed BEFORE the
+  handler ran), plus the cut-off and the old `valid_begin`. -/
+
+structure TickObs where
+  upd : UpdObs
+  cutoff : Int
+  now : Int
+  preVb : Option Int
+  deriving Repr
+
+/-- The formula after a timer run: nothing refreshed ⇒ what was stored; else the update formula. -/
+def expectTick (k : TickObs) (t : Int) : Bool :=
+  if k.upd.noop then inside k.upd.preSegs t else expectInside k.upd t
+
+def specTickWindow (k : TickObs) : Option Clause :=
+  let o := k.upd
+  let lo : Option Int := match k.preVb with
+    | some x => some (if x < k.now then k.now else x)
+    | none => none
+  if o.noop then
+    -- nothing refreshed: the end stays, the begin is at most the old one or `now`
+    (if o.ve = o.preVe ∧ (match o.vb, lo with
+        | some v, some l => decide (v ≤ l)
+        | none, none => true
+        | _, _ => false) = true then none else some .tickWindow)
+  else match o.vb, o.ve with
+    | some v, some w =>
+      if v ≤ o.effB ∧ o.e ≤ w ∧ (match lo with | some l => decide (v ≤ l) | none => true) = true then none
+      else some .tickWindow
+    | _, _ => some .tickWindow
+
+def specTickQuery (k : TickObs) (q : Int × Bool) : Option Clause :=
+  if q.1 < k.cutoff then none
+  else match k.upd.vb, k.upd.ve with
+    | some vb, some ve =>
+      if q.1 < vb ∨ q.1 > ve then (if q.2 = true then none else some .outsideWindow)
+      else if q.2 = expectTick k q.1 then none else some .tickInside
+    | _, _ => if q.2 = true then none else some .outsideWindow
+
+def specTickQueries (k : TickObs) : List (Int × Bool) → Option Clause
+  | [] => none
+  | q :: qs => match specTickQuery k q with
+    | some c => some c
+    | none => specTickQueries k qs
+
+def specTick (k : TickObs) : Option Clause :=
+  match specTickWindow k with
+  | some c => some c
+  | none => specTickQueries k k.upd.queries
+
+/-- The observation the model produces for one timer run on one period. -/
+def observeTick (p : Period) (u : UpdIn) (now : Int) (ts : List Int) : TickObs :=
+  let p' := p.tick u now
+  { upd := { prefer := u.prefer, clear := false, b := numOf p.ve, e := now + 86400, own := u.own,
+             incs := u.incs, excs := u.excs, preSegs := p.segs, preVe := p.ve, vb := p'.vb, ve := p'.ve,
+             postSegs := p'.segs, queries := ts.map (fun t => (t, p'.isInside t)) },
+    cutoff := now - 3600, now := now, preVb := p.vb }
+
+/-! ### Agreement with the referenced periods themselves
+
+  `specUpdate`/`specTick` take the included and excluded periods as the segment lists that were
+  merged.  The property speaks about the periods: "… or in an included period and does not lie
+  in an excluded period".  So, at an instant that lies in the window of the period AND in the
+  window of every period it refers to, its answer must follow the formula with the referenced
+  periods' OWN current answers.  `incNow` / `excNow` are those answers (`IsInside(t)` of each
+  included / excluded period, asked at the same moment). -/
+
+/-- The period's own part at `t`: what the update function returned, and what was stored before
+    outside the refreshed region (everything that was stored, if nothing was refreshed). -/
+def ownPart (o : UpdObs) (t : Int) : Bool :=
+  if o.noop then inside o.preSegs t
+  else (if o.clear then false else inside o.preSegs t && !(decide (o.effB ≤ t) && decide (t < o.e))) || inside o.own t
+
+def expectWithRefs (o : UpdObs) (inc exc : Bool) (t : Int) : Bool :=
+  if o.prefer then (ownPart o t && !exc) || inc else (ownPart o t || inc) && !exc
+
+def specRefs (o : UpdObs) (incNow excNow : List Bool) (q : Int × Bool) : Option Clause :=
+  match o.vb, o.ve with
+  | some vb, some ve =>
+    if q.1 < vb ∨ q.1 > ve then none
+    else if q.2 = expectWithRefs o (incNow.any id) (excNow.any id) q.1 then none else some .refsAgree
+  | _, _ => none
 
 /-- The observation the *model* produces for one call: this is the "trace of the model" the
     theorems speak about (the driver builds the same record from the implementation's output). -/
